@@ -133,6 +133,15 @@ def make_kernel_cross(name):
             if not (np.array_equal(S, S0) and np.array_equal(f, f0) and np.array_equal(fcs, fcs0)):
                 cl.fail(f"hvsrpy.smoothing.{name}", "inputs modified (frame: modifies nothing)", signature=name + ":frame")
                 return
+            if j % 5 == 0:
+                # the numbers decide, not their dtype: integer-valued and single-precision spectra give the weighted average of those numbers
+                for Sx in (np.round(np.abs(S) * 50 + 1).astype(np.int64), S.astype(np.float32)):
+                    want_x, _ = spec_kernel(name, f, Sx.astype(float), fcs, b)
+                    got_x, err = _call(fn, f, Sx, fcs, b)
+                    if err or not close(got_x, want_x, rtol=1e-9, atol=1e-12):
+                        cl.fail(f"hvsrpy.smoothing.{name}", err or f"a {Sx.dtype} spectrum is not smoothed to the weighted average of its values (result depends on the dtype)",
+                                frequencies=f, spectrum=Sx, fcs=fcs, bandwidth=b, observed=got_x, required=want_x, signature=name + ":dtype")
+                        return
     return clause
 
 
